@@ -109,6 +109,13 @@ def build(chk):
     c_matchDeflagOrHyb(chk)
     c_findHydroBoundaries(chk)
     c_findMatching(chk)
+    # the template model's matching / boundaries (observe_at of this property): obligations shared with C15
+    from . import C15_template as T15
+    T15.c_findTm(chk)
+    T15.c_getVp(chk)
+    T15.c_wFromAlpha(chk)
+    T15.c_boundaries(chk)
+    T15.c_template_matching(chk)
 
 
 # --------------------------------------------------------------------------- lemma
